@@ -29,8 +29,26 @@ package debian
 //@   ensures same-length: len(strings.TrimLeft(a, "0")) == len(strings.TrimLeft(b, "0")) ==> result == strings.Compare(strings.TrimLeft(a, "0"), strings.TrimLeft(b, "0"))   [C03 C10]
 //@   ensures empty-is-zero: a == "" && b == "0" ==> result == 0   [C10]
 
-// Two-cursor scanner: outside the loop shapes govc summarises; bounded stand-in.
+// Two-cursor scanner.  The specification is the algorithm of the property statement as a recursive function of the two
+// cursor positions: a non-digit run of each string compared by the modified lexical order, then a digit run of each
+// compared numerically, and again from where the runs end (ndEnd / dgEnd: where the run that starts at i ends).
+//@ spec ndEnd(s string, i int) int = (0 <= i && i < len(s) && !unicode.IsDigit(s[i])) ? ndEnd(s, i + 1) : i
+//@ spec dgEnd(s string, i int) int = (0 <= i && i < len(s) && unicode.IsDigit(s[i])) ? dgEnd(s, i + 1) : i
+//@ spec textCmp(a string, i int, b string, j int) int = compareDebianNonDigits(a[i:ndEnd(a, i)], b[j:ndEnd(b, j)])
+//@ spec numCmp(a string, i int, b string, j int) int = compareDebianDigits(a[ndEnd(a, i):dgEnd(a, ndEnd(a, i))], b[ndEnd(b, j):dgEnd(b, ndEnd(b, j))])
+//@ spec cmpFrom(a string, i int, b string, j int) int = (i >= len(a) && j >= len(b)) ? 0 : (textCmp(a, i, b, j) != 0 ? textCmp(a, i, b, j) : (numCmp(a, i, b, j) != 0 ? numCmp(a, i, b, j) : cmpFrom(a, dgEnd(a, ndEnd(a, i)), b, dgEnd(b, ndEnd(b, j)))))
 //@ func compareDebianVersionString
+//@   ensures runs: result == cmpFrom(a, 0, b, 0)   [C10] using runs
+//@   loop 1 invariant runs: cmpFrom(a, 0, b, 0) == cmpFrom(a, i, b, j)
+//@   loop 1 decreases len(a) - i + len(b) - j   // termination (C06): every round consumes at least one byte of a string that is not exhausted
+//@   loop 2 decreases len(a) - i
+//@   loop 3 decreases len(b) - j
+//@   loop 4 decreases len(a) - i
+//@   loop 5 decreases len(b) - j
+//@   loop 2 invariant runs: ndEnd(a, iStart#1) == ndEnd(a, i)
+//@   loop 3 invariant runs: ndEnd(b, jStart#1) == ndEnd(b, j)
+//@   loop 4 invariant runs: dgEnd(a, iStart#2) == dgEnd(a, i)
+//@   loop 5 invariant runs: dgEnd(b, jStart#2) == dgEnd(b, j)
 //@   loop 1 invariant 0 <= i && i <= len(a) && 0 <= j && j <= len(b)
 //@   loop 2 invariant 0 <= i && i <= len(a) && iStart#1 <= i
 //@   loop 3 invariant 0 <= j && j <= len(b) && jStart#1 <= j
